@@ -78,14 +78,13 @@ def finding_class(units, ans):
         p = subprocess.run([HARNESS_BIN], input=(rq + "\n").encode(), stdout=subprocess.PIPE, stderr=subprocess.PIPE,
                            env=env_for_cargo())
         first = p.stderr.decode("utf8", "replace").strip().split("\n")[0] if p.stderr else ""
-        if len(units) == 1:
-            # is the crash caused by formatting an aggregate (print!/format! of an array, slice or structure)?
-            name, src = units[0]
-            rx = re.compile(r"^[^\n]*\b(?:print|format|eprint)!\(\s*[A-Za-z_][A-Za-z0-9_.]*\s*[,)][^\n]*$", re.M)
-            if rx.search(src):
-                a2 = run_harness_serial(["alpha\tir\t%s\t%s" % (name, esc(rx.sub("", src)))])[0]
-                if not a2.startswith("crash"):
-                    return "crash:format-of-aggregate"
+        # is the crash caused by formatting an aggregate (print!/format! of an array, slice or structure)?
+        rx = re.compile(r"^[^\n]*\b(?:print|format|eprint)!\(\s*[A-Za-z_][A-Za-z0-9_.]*\s*[,)][^\n]*$", re.M)
+        if any(rx.search(src) for _, src in units):
+            rq2 = "alpha\tir\t" + "\t".join(x for nm, src in units for x in (nm, esc(rx.sub("", src))))
+            a2 = run_harness_serial([rq2])[0]
+            if not a2.startswith("crash"):
+                return "crash:format-of-aggregate"
         return "crash:" + re.sub(r"[0-9]+", "N", first)[:100]
     if ans.startswith("internal"):
         m = re.search(r"msg=(.*)$", ans)
